@@ -54,7 +54,9 @@ DNext ==
   /\ \/ Ev.ev = "dsys" /\ l' = l + 1 /\ \E t \in Thr : DSys(t, Ev)
      \/ Ev.ev = "dsys" /\ l' = l + 1 /\ DMoreWrite(Ev)
      \/ l' = l /\ \E t \in Thr : DSilent(t)
-     \/ Ev.ev = "dend" /\ l' = l + 1 /\ Return /\ PrintT(<<"DONE", Log[h].trace>>)
+     \/ Ev.ev = "dend" /\ l' = l + 1 /\ PrintT(<<"DONE", Log[h].trace>>)
+        /\ \/ Return
+           \/ ctl.phase = "done" /\ UNCHANGED vars       \* the operation ended with an error (Fail)
 DSpec == DInit /\ [][DNext]_<<vars, l, h>>
 HW == TLCSet(h, IF TLCGet(h) > l THEN TLCGet(h) ELSE l)              \* CONSTRAINT: per-trace high-water mark
 Reached == PrintT(<<"HIGHWATER", [i \in Starts |-> TLCGet(i)]>>)     \* POSTCONDITION (always TRUE)
